@@ -21,7 +21,8 @@
   Not covered: token lists that are neither rendering — redundant parentheses (more than
   the canonical rendering writes), integer-typed weights (pydantic turns them into floats,
   so no AST with an integer weight is ever built), and the lexer (the statement starts from
-  tokens).
+  tokens).  For those token lists `C07_wf.lean` proves the converse of `WF`: whatever the
+  tables accept has a well-formed AST, hence re-prints and parses back.
 -/
 import Pyab.Proofs.LRComplete
 import Pyab.Proofs.LRCompleteMin
